@@ -3,7 +3,6 @@
 verus! {
 
 // ---------------------------------------------------------------- assumed std specs (trusted, listed)
-pub uninterp spec fn spec_lower(s: Seq<char>) -> Seq<char>;
 pub assume_specification [str::to_lowercase] (s: &str) -> (r: std::string::String)
     ensures r@ == spec_lower(s@);
 pub assume_specification<T: std::ops::DerefMut> [std::option::Option::<T>::as_deref_mut] (o: &mut std::option::Option<T>) -> std::option::Option<&mut <T as std::ops::Deref>::Target>;
@@ -25,28 +24,7 @@ impl UnitTrace {
 //@@ item src/http/header.rs :: struct Header
 //@@ item src/api/header_filter.rs :: struct HeaderFilter
 
-// ---------------------------------------------------------------- reference semantics, written from the statement of C13
-pub type H = (Seq<char>, Seq<char>);
-pub type HV = Seq<H>;
-pub open spec fn hview(h: Header) -> H { (h.name@, h.value@) }
-pub open spec fn hsview(hs: Seq<Header>) -> HV { hs.map_values(|h: Header| hview(h)) }
-pub open spec fn ci(a: Seq<char>, b: Seq<char>) -> bool { spec_lower(a) == spec_lower(b) }
-pub open spec fn has(hs: HV, n: Seq<char>) -> bool { exists|i: int| 0 <= i < hs.len() && ci(#[trigger] hs[i].0, n) }
-
-pub open spec fn ref_add(hs: HV, n: Seq<char>, v: Seq<char>) -> HV { hs.push((n, v)) }
-// remove: delete all occurrences (order of the others kept)
-pub open spec fn ref_remove(hs: HV, n: Seq<char>) -> HV
-    decreases hs.len()
-{
-    if hs.len() == 0 { Seq::empty() } else {
-        let p = ref_remove(hs.drop_last(), n);
-        if ci(hs.last().0, n) { p } else { p.push(hs.last()) }
-    }
-}
-// replace: rewrite existing occurrences only, in place
-pub open spec fn ref_replace(hs: HV, n: Seq<char>, v: Seq<char>) -> HV { hs.map_values(|h: H| if ci(h.0, n) { (n, v) } else { h }) }
-pub open spec fn ref_override(hs: HV, n: Seq<char>, v: Seq<char>) -> HV { if has(hs, n) { ref_replace(hs, n, v) } else { hs.push((n, v)) } }
-pub open spec fn ref_default(hs: HV, n: Seq<char>, v: Seq<char>) -> HV { if has(hs, n) { hs } else { hs.push((n, v)) } }
+//@@ include ../common/hdr_spec.rs
 
 pub proof fn lemma_hsview_push(s: Seq<Header>, x: Header)
     ensures hsview(s.push(x)) == hsview(s).push(hview(x)),
@@ -147,19 +125,6 @@ impl HeaderAction for HeaderDefaultAction {
 }
 
 
-// what a filter description means (statement: unknown operations are ignored)
-pub open spec fn filter_known(f: HeaderFilter) -> bool {
-    f.action@ == "add"@ || f.action@ == "remove"@ || f.action@ == "replace"@ || f.action@ == "override"@ || f.action@ == "default"@
-}
-pub open spec fn filter_op(f: HeaderFilter, hs: HV) -> HV {
-    if f.action@ == "add"@ { ref_add(hs, f.header@, f.value@) }
-    else if f.action@ == "remove"@ { ref_remove(hs, f.header@) }
-    else if f.action@ == "replace"@ { ref_replace(hs, f.header@, f.value@) }
-    else if f.action@ == "override"@ { ref_override(hs, f.header@, f.value@) }
-    else if f.action@ == "default"@ { ref_default(hs, f.header@, f.value@) }
-    else { hs }
-}
-
 //@@ strip-path header_add::
 //@@ strip-path header_remove::
 //@@ strip-path header_replace::
@@ -178,14 +143,6 @@ pub open spec fn fold_ops(actions: Seq<Box<dyn HeaderAction>>, hs: HV) -> HV
 {
     if actions.len() == 0 { hs } else { actions.last().op(fold_ops(actions.drop_last(), hs)) }
 }
-// reference: fold of the reference operations over the filter descriptions, in order, unknown ones ignored
-pub open spec fn fold_filters(fs: Seq<HeaderFilter>, hs: HV) -> HV
-    decreases fs.len()
-{
-    if fs.len() == 0 { hs } else { filter_op(fs.last(), fold_filters(fs.drop_last(), hs)) }
-}
-pub open spec fn any_known(fs: Seq<HeaderFilter>) -> bool { exists|i: int| 0 <= i < fs.len() && filter_known(#[trigger] fs[i]) }
-
 pub proof fn lemma_any_known_push(fs: Seq<HeaderFilter>, f: HeaderFilter)
     ensures any_known(fs.push(f)) == (any_known(fs) || filter_known(f)),
 {
